@@ -26,6 +26,8 @@ from exabgp.configuration.core import Error
 from exabgp.configuration.schema import RouteBuilder, Leaf, ValueType, ActionTarget, ActionOperation, ActionKey
 
 from exabgp.configuration.static.parser import prefix
+from exabgp.configuration.static.parser import path_information
+from exabgp.configuration.validator import LegacyParserValidator
 
 
 class AnnouncePath(AnnounceIP):
@@ -42,6 +44,9 @@ class AnnouncePath(AnnounceIP):
             **AnnounceIP.schema.children,
             'path-information': Leaf(
                 type=ValueType.IP_ADDRESS,
+                # the value is a path identifier (a number or its dotted form), not an address:
+                # the same parser as `route ... path-information` so that the NLRI gets a PathInfo
+                validator=LegacyParserValidator(parser_func=path_information, name='path-information'),
                 description='Path information (path ID for ADD-PATH)',
                 target=ActionTarget.NLRI,
                 operation=ActionOperation.SET,
